@@ -1,6 +1,9 @@
 //! unit: u12b
 //! properties: C12 C17 C10
 //! note: FundedChannel::write and the disconnection it implies: inbound HTLCs the peer has announced but not yet committed (RemoteAnnounced) are not written, the written HTLC count is reduced by their number, and so is the written next_counterparty_htlc_id (the peer retransmits those adds with the same ids after the reload)
+//! plemma: C12 lemma_channel_fields_are_read_in_the_order_written: the five fixed-position fields after funding_tx_confirmed_in (confirmation height, short channel id, the two dust limits, the in-flight limit) are read in the order FundedChannel::write emits them
+//! plemma: C12 lemma_channel_limits_are_read_in_the_order_written: the two fields after counterparty_htlc_minimum_msat likewise
+//! trusted: R15 (deep slices): FundedChannel::write / read: the NAMES of consecutive fixed-position fields of the legacy section are captured on both sides as values of an enum; the lemmas state that the two sequences agree (same-typed neighbours such as the two dust limits can be swapped without a type error)
 //! trusted: R15 (deep slice + capture): ChannelManager::write: the statement that decides whether the pending events go into the legacy list or into TLV 8, and the condition under which TLV 8 is written; R6: `E.iter().any(|p| P)` / `E.iter().all(|p| P)` is an index loop carrying P verbatim that accumulates both answers, the quantifier written in the source selects the result (macro iter_quantifier!)
 //! trusted: R15 (statement slicing with captures): FundedChannel::write is ~500 lines of field-by-field serialization; the unit extracts, on every run, (a) the loop that counts the dropped inbound HTLCs, (b) the expression written as the inbound HTLC count, (c) the skip test of the loop that writes the inbound HTLCs, and (d) the expression written between next_holder_htlc_id and update_time_counter (the slot of next_counterparty_htlc_id), verbatim, as one function returning the two written numbers and the number of HTLCs not skipped; every other field of the channel is dropped and not claimed; `x.write(writer)?` of the two numbers becomes returning them
 //! trusted: R6: `for htlc in self.context.pending_inbound_htlcs.iter() { B }` becomes an index loop; R16: `if let &P = &e` is written `if let P = e` / a match (Verus has no `&` patterns); env: InboundHTLCState is a 5-variant skeleton without payloads (the source variants carry resolutions), InboundHTLCOutput skeleton {htlc_id, state}; Ctx/FundedChannel self skeletons
@@ -423,6 +426,43 @@ use vstd::prelude::*;
 //@with
     AtomicUsize::new(nodes_count as usize - 1)
 //@end
+}
+// ---- FundedChannel legacy section: the reader takes the fixed-position fields in the order the writer put them --------------------
+pub mod legacy_field_order {
+use vstd::prelude::*;
+#[allow(non_camel_case_types)]
+pub enum Field { funding_tx_confirmed_in, funding_tx_confirmation_height, short_channel_id, counterparty_dust_limit_satoshis, holder_dust_limit_satoshis, counterparty_max_htlc_value_in_flight_msat,
+    counterparty_htlc_minimum_msat, holder_htlc_minimum_msat, counterparty_max_accepted_htlcs, update_time_counter, feerate_per_kw, next_holder_htlc_id }
+//@extract lightning/src/ln/channel.rs :: impl Writeable for FundedChannel :: fn write
+//@slice R15
+    self.funding.funding_tx_confirmed_in.write(writer)?; self.funding.$w1:ident.write(writer)?; self.funding.$w2:ident.write(writer)?; self.context.$w3:ident.write(writer)?; self.context.$w4:ident.write(writer)?; self.context.$w5:ident.write(writer)?;
+//@with
+    pub open spec fn written_order() -> Seq<Field> { seq![Field::$w1, Field::$w2, Field::$w3, Field::$w4, Field::$w5] }
+//@end
+//@extract lightning/src/ln/channel.rs :: impl ReadableArgs for FundedChannel :: fn read
+//@slice R15
+    let funding_tx_confirmed_in = Readable::read(reader)?; let $r1:ident = Readable::read(reader)?; let $r2:ident = Readable::read(reader)?; let $r3:ident = Readable::read(reader)?; let $r4:ident = Readable::read(reader)?; let $r5:ident = Readable::read(reader)?; let mut counterparty_selected_channel_reserve_satoshis
+//@with
+    pub open spec fn read_order() -> Seq<Field> { seq![Field::$r1, Field::$r2, Field::$r3, Field::$r4, Field::$r5] }
+//@end
+pub proof fn lemma_channel_fields_are_read_in_the_order_written()
+    ensures written_order() =~= read_order()
+{}
+//@extract lightning/src/ln/channel.rs :: impl Writeable for FundedChannel :: fn write
+//@slice R15
+    self.context.counterparty_htlc_minimum_msat.write(writer)?; self.context.$w1:ident.write(writer)?; self.context.$w2:ident.write(writer)?;
+//@with
+    pub open spec fn written_order_2() -> Seq<Field> { seq![Field::$w1, Field::$w2] }
+//@end
+//@extract lightning/src/ln/channel.rs :: impl ReadableArgs for FundedChannel :: fn read
+//@slice R15
+    let counterparty_htlc_minimum_msat = Readable::read(reader)?; let $r1:ident = Readable::read(reader)?; let $r2:ident = Readable::read(reader)?;
+//@with
+    pub open spec fn read_order_2() -> Seq<Field> { seq![Field::$r1, Field::$r2] }
+//@end
+pub proof fn lemma_channel_limits_are_read_in_the_order_written()
+    ensures written_order_2() =~= read_order_2()
+{}
 }
 // ---- ChannelManager::write: pending events go either all into the legacy list or all into the TLV that also carries their completion actions ----
 pub mod manager_events {
